@@ -127,7 +127,18 @@ def _circuit_queries(p, name, c, extra_constraints=(), describe=None, rebuild=No
                         dis.append((nm + ":default-undefined", lab, symeval.states_differ(x[lab], y[lab])))
         return dis, tot
 
-    paths, stats = forkexec.explore(build, catch=(), max_paths=512)
+    try:
+        paths, stats = forkexec.explore(build, catch=(), max_paths=512)
+    except Exception as e:  # noqa: BLE001 - the evaluator itself raised on symbolic three-valued inputs
+        p.violation(f"partial:evaluation-raises:{type(e).__name__}:{name.split('[')[0]}",
+                    f"evaluating {describe or circ.describe(c)} under a partial assignment raised {type(e).__name__}: {e}",
+                    REPLAY_PRELUDE + (build_src or circ.circ_src(c)) + "\nimport itertools\nbad=[]\n"
+                    "for vals in itertools.product((False, True, Undefined), repeat=len(c.inputs)):\n"
+                    "    A=dict(zip(c.inputs, vals))\n"
+                    "    for entry in ('evaluate_full_circuit','evaluate_circuit','evaluate_circuit_outputs'):\n"
+                    "        try:\n            getattr(c,entry)(dict(A))\n        except Exception as e:\n            bad.append((entry, type(e).__name__)); break\n"
+                    "    if bad: break\nprint(bad); sys.exit(1 if bad else 0)\n")
+        return False
     if len(paths) == 1:
         dis, tot = paths[0].result
     else:
